@@ -353,12 +353,12 @@ func ruleRIBCallers(c *Ctx) {
 			}
 			dn := displayName(cl)
 			inServer = append(inServer, dn)
-			if dn != t.allow {
+			if !onBehalfOf(cg, cl, func(g *types.Func) bool { return displayName(g) == t.allow }) {
 				bad = append(bad, dn)
 			}
 		}
 		c.Sites += len(inServer)
-		c.check(len(bad) == 0 && len(inServer) == 1, rule, fi.Name, "callers inside package server", c.P.pos(fi.Decl.Pos()), "only "+t.allow,
+		c.check(len(bad) == 0 && len(inServer) >= 1, rule, fi.Name, "callers inside package server", c.P.pos(fi.Decl.Pos()), "only "+t.allow,
 			fmt.Sprintf("RIB.%s is called from %v inside the server (audited gate: %s only)", t.name, inServer, t.allow))
 	}
 }
